@@ -123,6 +123,48 @@ Definition round_to (f : vec) : vec := map round_to_scalar f.
 Definition vis_finite (f : vec) : bool := forallb F64.is_finite f.
 Definition vis_nan (f : vec) : bool := existsb F64.is_nan f.
 
+(* ---- utility.h scalars
+   issmall(v):        static constexpr auto e(epsilon); return std::abs(v) < 2.0 * e;
+   isnonnegative(v):  return v >= static_cast<T>(0);
+   almost_equal(v1, v2, e = 0.00001):
+     const T diff(std::abs(v1 - v2));
+     if (issmall(diff)) return true;
+     v1 = std::abs(v1); v2 = std::abs(v2);
+     const T largest(std::max(v1, v2));          // (a < b) ? b : a
+     return diff <= largest * e;                                           *)
+Definition two_epsilon : f64 := F64.of_bits 4377498837804122112.   (* 0x3cc0000000000000 = 2^-51 *)
+Definition default_ae_epsilon : f64 := F64.of_bits 4532020583610935537. (* 0x3ee4f8b588e368f1 = 0.00001 *)
+
+Definition issmall (v : f64) : bool := F64.ltb (F64.abs v) two_epsilon.
+Definition isnonnegative (v : f64) : bool := F64.geb v F64.zero.
+Definition std_max (a b : f64) : f64 := if F64.ltb a b then b else a.
+
+Definition almost_equal (v1 v2 e : f64) : bool :=
+  let diff := F64.abs (F64.sub v1 v2) in
+  if issmall diff then true
+  else
+    let a1 := F64.abs v1 in
+    let a2 := F64.abs v2 in
+    let largest := std_max a1 a2 in
+    F64.leb diff (F64.mul largest e).
+
+(* fitness.tcc issmall / isnonnegative: std::all_of;
+   almost_equal(f1, f2, e): Expects(f1.size() == f2.size()); all components *)
+Definition vissmall (f : vec) : bool := forallb issmall f.
+Definition visnonnegative (f : vec) : bool := forallb isnonnegative f.
+
+Fixpoint almost_equal_loop (a b : vec) (e : f64) : option bool :=
+  match a with
+  | [] => Some true
+  | x :: a' =>
+      match b with
+      | [] => None
+      | y :: b' => if almost_equal x y e then almost_equal_loop a' b' e else Some false
+      end
+  end.
+Definition valmost_equal (a b : vec) (e : f64) : option bool :=
+  if Nat.eqb (length a) (length b) then almost_equal_loop a b e else None.
+
 (* ---- distance:  Expects(f1.size() == f2.size());
      std::inner_product(f1.begin(), f1.end(), f2.begin(), 0.0, std::plus<>(),
                         [](T a, T b) { return std::fabs(a - b); })
